@@ -105,22 +105,23 @@ class WorldLayer(core.Layer):
         self.cli_every = cli_every
 
     def nblocks(self):
-        return len(self.worlds)
+        return len(self.worlds) * len(self.extras)
 
     def run_block(self, b, acc):
-        w = self.worlds[b]
+        w = self.worlds[b // len(self.extras)]
         acc.seq += 1
-        found = self.run_one(w, acc, cli=bool(self.cli_every) and b % self.cli_every == 0, key=b)
+        found = self.run_one(w, acc, cli=bool(self.cli_every) and b % self.cli_every == 0, key=b,
+                             extras=[self.extras[b % len(self.extras)]])
         case = lambda: dict(world=worlds.jsonable(w))  # noqa: E731
         for f in found:
             acc.viol(f[0], case, f[1], f[2], f[3])
         acc.sample(lambda: dict(world=_brief(w)))
 
-    def run_one(self, w, acc, cli=False, key=None):
-        ctx = RunCtx(w)
-        ctx.key = key
+    def run_one(self, w, acc, cli=False, key=None, extras=None):
         found = []
-        for extra in self.extras:
+        for extra in (extras or self.extras):
+            ctx = RunCtx(w)
+            ctx.key = key
             for mode in self.modes:
                 ext = [e() for e in self.extensions] if self.extensions else None
                 obs = driver.run_world(w, mode, extra=list(w.get('args', [])) + list(extra), extensions=ext,
@@ -387,3 +388,69 @@ def c01_layers(tier, seed):
     return [WorldLayer('B:worlds', ws, judge_c01, bounds=b, cli_every=97,
                        rule='every record of every file (main,_1,_2) of every standard world in 4 modes; non-trivial = record is '
                             'reverse-strand, second-pass or joined')]
+
+
+# ------------------------------------------------------------------------------------------------
+# multi-query worlds (C05, C08, C10)
+
+def query_pool():
+    """named single-query position lists over the three standard references: plain windows on both strands, partial (cut), indel,
+    chimeric (same reference/same strand at several gaps, other strand, other reference) and unalignable molecules"""
+    refs = std_refs()
+    pool = []
+
+    def win(ri, s, l, rev):
+        return worlds.window_query(refs[ri], s, l, rev)[0][2]
+    for ri, s, l in ((0, 8, 18), (1, 20, 16), (2, 30, 20), (0, 40, 14)):
+        for rev in (False, True):
+            pool.append(('plain r%d s%d l%d %s' % (ri, s, l, '-' if rev else '+'), win(ri, s, l, rev)))
+    for ri, s, l, s2, l2, rev in ((0, 6, 14, 27, 12, False), (1, 10, 12, 28, 14, True), (2, 12, 13, 33, 12, False)):
+        a, b = win(ri, s, l, rev), win(ri, s2, l2, rev)
+        first, second = (a, b) if not rev else (b, a)
+        true_gap = (refs[ri][2][s2] - refs[ri][2][s + l - 1])
+        for gap in (2100.0, 5600.0, 28000.0, 140000.0, round(true_gap, 1), round(true_gap + 4200.0, 1)):
+            pool.append(('chimera r%d same-strand gap %s %s' % (ri, gap, '-' if rev else '+'),
+                         worlds.apply_edit(first, ('chimera', second, gap))))
+        pool.append(('chimera r%d other-strand' % ri, worlds.apply_edit(a, ('chimera', win(ri, s2, l2, not rev), 5600.0))))
+        pool.append(('chimera r%d other-reference' % ri, worlds.apply_edit(a, ('chimera', win((ri + 1) % 3, 15, 12, rev), 5600.0))))
+    for ri, s, l, rev, i, d in ((0, 10, 24, False, 12, 28000.0), (1, 14, 22, True, 9, 4200.0), (2, 20, 26, False, 13, -4200.0),
+                                (0, 30, 24, True, 11, 60000.0)):
+        q1 = worlds.apply_edit(win(ri, s, l, rev), ('indel', i, d))
+        if q1:
+            pool.append(('indel r%d %s@%d %s' % (ri, d, i, '-' if rev else '+'), q1))
+    for ri, s, l, rev, k in ((0, 15, 26, False, 9), (2, 8, 24, True, 10)):
+        pool.append(('cut-head r%d' % ri, worlds.apply_edit(win(ri, s, l, rev), ('cut', 'head', k))))
+    pool.append(('unalignable one-label', [100.0]))
+    pool.append(('unalignable two-label', [100.0, 20000.0]))
+    pool.append(('unalignable even-spacing', [float(i * 2150) for i in range(12)]))
+    return refs, pool
+
+
+def query_sets(n, seed_tag, size=(3, 5)):
+    """n deterministic ordered tuples of pool indices (sizes within `size`), each containing >= 1 chimera/indel and mostly an
+    unalignable molecule; ids are assigned from QIDS in tuple order (unsorted in the file)"""
+    import random
+    refs, pool = query_pool()
+    rnd = random.Random('coma-query-sets/%s' % seed_tag)
+    special = [i for i, (nm, _) in enumerate(pool) if nm.startswith(('chimera', 'indel', 'cut'))]
+    plain = [i for i, (nm, _) in enumerate(pool) if nm.startswith('plain')]
+    unal = [i for i, (nm, _) in enumerate(pool) if nm.startswith('unalignable')]
+    sets = []
+    while len(sets) < n:
+        k = rnd.randint(size[0], size[1])
+        chosen = [special[(len(sets) * 7 + j * 3) % len(special)] for j in range(1 + (k > 3))]
+        if len(sets) % 4 != 3:
+            chosen.append(unal[len(sets) % len(unal)])
+        while len(chosen) < k:
+            c = rnd.choice(plain + special)
+            if c not in chosen:
+                chosen.append(c)
+        rnd.shuffle(chosen)
+        sets.append(tuple(chosen[:k]))
+    return refs, pool, sets
+
+
+def set_world(refs, pool, idxs, nrefs=3, ids=QIDS):
+    queries = [worlds.as_map(ids[j], pool[i][1], trailing=(0.0, 2500.0)[j % 2], offset=(0.0, 777.7, 20.0)[j % 3]) for j, i in enumerate(idxs)]
+    order = [refs[1], refs[0], refs[2]][:nrefs] if nrefs > 1 else [refs[0]]
+    return dict(refs=order, queries=queries, desc=[pool[i][0] for i in idxs])
